@@ -1741,4 +1741,51 @@ theorem targetValues_strip (p : Parser) (hi : Inv p) (cfg : KV) : ∀ l ∈ p.li
     intro items hg
     exact hnl n hk items (getK_delKeys_leaf (stripKeys p) _ cfg _ (by intro sub e; cases e) hg)
 
+/-! ### `delKey` is `Jap.NS.delK` on namespaces with unique names -/
+
+theorem eraseAll_of_not_mem (k : SKey) : ∀ kvs : KV, k ∉ keysOf kvs → eraseAll k kvs = kvs
+  | [], _ => rfl
+  | (k', v) :: r, h => by
+    have h1 : k' ≠ k := by intro e; apply h; simp [keysOf, e]
+    have h2 : k ∉ keysOf r := by intro e; apply h; simp [keysOf] at e ⊢; exact Or.inr e
+    have : (k' != k) = true := by simp [h1]
+    simp only [eraseAll, List.filter, this]
+    congr 1
+    exact eraseAll_of_not_mem k r h2
+
+theorem eraseAll_eq_erase (k : SKey) : ∀ kvs : KV, (keysOf kvs).Nodup → eraseAll k kvs = erase k kvs
+  | [], _ => rfl
+  | (k', v) :: r, h => by
+    simp only [keysOf, List.map_cons, List.nodup_cons] at h
+    by_cases e : k' = k
+    · subst e
+      simp only [eraseAll, List.filter, bne_self_eq_false, erase, if_true]
+      exact eraseAll_of_not_mem k' r h.1
+    · have : (k' != k) = true := by simp [e]
+      simp only [eraseAll, List.filter, this, erase, e, if_false]
+      congr 1
+      exact eraseAll_eq_erase k r h.2
+
+theorem delKey_eq_delK : ∀ (k : Key) (kvs : KV), uniqKV kvs → delKey k kvs = delK k kvs
+  | [], _, _ => rfl
+  | [leaf], kvs, hu => by
+    simp only [delKey, delK]
+    exact eraseAll_eq_erase leaf kvs (uniqKV_nodup kvs hu)
+  | s :: t :: rest, kvs, hu => by
+    simp only [delKey, delK]
+    cases hl : lookup s kvs with
+    | none => rfl
+    | some w =>
+      cases w with
+      | ns sub =>
+        have hsub : uniqKV sub := by
+          have := uniq_lookup s kvs _ hu hl
+          simpa [uniqV] using this
+        simp only [delKey_eq_delK (t :: rest) sub hsub]
+      | none => rfl
+      | atom _ => rfl
+      | lst _ => rfl
+      | tup _ => rfl
+      | dct _ => rfl
+
 end Jap.Links
